@@ -45,6 +45,24 @@ class PathEnum:
         for l, ds in fn.defs().items():
             if len(ds) == 1:
                 self.single[l] = ds[0]
+        # variant names seen in downcast projections, per place key
+        self.dc_names = {}
+        def note(p):
+            for i, e in enumerate(p[1]):
+                if isinstance(e, dict) and "dc" in e:
+                    k = self.key([p[0], p[1][:i]])
+                    self.dc_names.setdefault(k, {})[str(e["vi"])] = e["dc"]
+        for bb in fn.bbs:
+            for s in bb["s"]:
+                if s["k"] != "a":
+                    continue
+                note(s["d"])
+                r = s["r"]
+                if "p" in r:
+                    note(r["p"])
+                for key in ("o", "l", "r"):
+                    if isinstance(r.get(key), dict) and op_place(r[key]):
+                        note(op_place(r[key]))
 
     # -- places ---------------------------------------------------------
     def key(self, place):
@@ -179,7 +197,16 @@ class PathEnum:
                 return ("bool", "_%d" % l, neg)
             if r["k"] == "disc":
                 p = self.resolve_place(r["p"]) or r["p"]
-                return ("enum", self.key(p), self.variants_of(p) or {})
+                names = self.variants_of(p)
+                if not names:
+                    seen = self.dc_names.get(self.key(p)) or self.dc_names.get(self.key(r["p"])) or {}
+                    if seen and set(seen.values()) <= {"Some", "None"}:
+                        names = OPTION
+                    elif seen and set(seen.values()) <= {"Ok", "Err"}:
+                        names = RESULT
+                    else:
+                        names = seen
+                return ("enum", self.key(p), names or {})
             if r["k"] == "un" and r["op"] == "Not":
                 q = op_place(r["o"])
                 if q is not None and not q[1]:
